@@ -203,18 +203,6 @@ Proof.
 Qed.
 
 (* ---------- every ElfStream method loads before it gets (and has no reachable panic) ---------- *)
-Lemma regular_np {T} n (p : buf -> M T) d off : regular n p -> buf_ok d -> fst (p d off) <> Panic.
-Proof.
-  intros R Hd. destruct (R d off Hd) as [H1 H2]. destruct (N.le_gt_cases (off + n) (blen d)) as [H|H].
-  - destruct (H1 H) as [a E]. rewrite E. discriminate.
-  - destruct (H2 H) as [e [o' [E _]]]. rewrite E. discriminate.
-Qed.
-Lemma regular_tail s c osabi abiver : regular (tail_size c) (fun d => parse_tail s c osabi abiver d).
-Proof. unfold parse_tail. destruct c; cbn [tail_size]; (eapply regular_eq; [unfold u16, u32, u64; reg|reflexivity]). Qed.
-Lemma validate_np a b : validate_entsize a b <> Panic.
-Proof. unfold validate_entsize. destruct (b =? a); discriminate. Qed.
-Lemma ok_or_np {T} (o : option T) e : ok_or o e <> Panic.
-Proof. destruct o; discriminate. Qed.
 Lemma data_range_np a b : data_range a b <> Panic.
 Proof. unfold data_range. destruct (checked_add a b); cbn; discriminate. Qed.
 Lemma data_range_le a b x y : data_range a b = Ok (x, y) -> x <= y.
